@@ -117,6 +117,11 @@ def gen(rng, tier):
         allow = 1 if exp.get("chainId") is None and exp["kind"] == "legacy" and (forced[1] == "absent" or rng.random() < 0.7) else rng.randrange(2)
         add("cli.sign_tx %s %s %s %s 1 %d" % (mn, pw, sel, hx(j), allow), ("sign_tx", "sigonly"), {"address_of": (mn, pw, sel), "digest_cmd": "cli.hash_tx %s none" % hx(j), "pipeline": hx(j), "allow": allow})
         add("cli.sign_tx %s %s %s %s 0 %d" % (mn, pw, sel, hx(j), allow), ("sign_tx", "full"), {"pipeline_full": hx(j)})
+    # boundary digests through `sign raw`: 0, 1, n-1, n, n+1, 2^256-1 are digests like any other
+    NN_ = txgen.N
+    for dgv in (0, 1, NN_ - 1, NN_, NN_ + 1, 2 ** 256 - 1, 2 ** 255):
+        mn, pw, sel = rand_acct(rng)
+        add("cli.sign_raw %s %s %s %s" % (mn, pw, sel, hx(rng.choice(["0x", ""]) + "%064x" % dgv)), ("sign_raw", "boundary-digest"))
     from vlib.core import perturb
     mn0, pw0, _ = rand_acct(rng)
     for v in perturb("7") + perturb("2147483647"):
